@@ -418,6 +418,11 @@ class Interp:
             n = f.id
             if n in ("int", "float", "bool", "min", "max", "abs", "len"):
                 vs = [pyval(self.ev(a, fr)) for a in e.args]
+                if n in ("min", "max") and len(vs) == 1 and isinstance(vs[0], np.ndarray):
+                    if vs[0].size == 0:
+                        self.fail(fr, "nonempty", f"{unparse(e)}@{self.lab(fr)}", "empty")
+                        return 0
+                    return pyval(getattr(vs[0], n)())
                 r = {"int": int, "float": float, "bool": bool, "min": min, "max": max, "abs": abs, "len": len}[n](*vs)
                 return self.i64(fr, r) if n == "abs" else r
             if n in fr.fs.module_funcs:
@@ -555,7 +560,9 @@ class Interp:
             tgt = s.targets[0]
             if isinstance(tgt, ast.Subscript) and isinstance(tgt.slice, ast.Slice):
                 return self.slice_assign(tgt, s.value, fr)
-            self.assign(tgt, self.ev(s.value, fr), fr)
+            val = self.ev(s.value, fr)
+            for tgt in s.targets:
+                self.assign(tgt, val, fr)
             return
         if t is ast.AugAssign:
             ld = ast.Subscript(value=s.target.value, slice=s.target.slice, ctx=ast.Load()) \
